@@ -248,28 +248,29 @@ structure Red where
   tell : Int
   deriving DecidableEq, Repr
 
+/-- :487-498  `len -= redundancy_bytes` and the sanity check. -/
+def redFinish (redundancy c2s bytes len tell3 : Int) (r3 : Run) : Red × Run :=
+  if (len - bytes) * 8 < tell3 then
+    ({ redundancy := 0, celt_to_silk := c2s, bytes := 0, len := 0, tell := tell3 }, r3)
+  else
+    ({ redundancy := redundancy, celt_to_silk := c2s, bytes := bytes, len := len - bytes, tell := tell3 }, r3)
+
+/-- :481-486  `celt_to_silk` and `redundancy_bytes` once `redundancy` is known to be set. -/
+def redTail (o : Oracle) (mode len redundancy tell1 : Int) (r1 : Run) : Red × Run :=
+  if mode = MODE_HYBRID then
+    redFinish redundancy (o.bit r1.k 1 tell1).1 ((o.uint r1.tick.k 256 (o.bit r1.k 1 tell1).2).1 + 2) len
+      (o.uint r1.tick.k 256 (o.bit r1.k 1 tell1).2).2 r1.tick.tick
+  else
+    redFinish redundancy (o.bit r1.k 1 tell1).1 (len - ((o.bit r1.k 1 tell1).2 + 7) / 8) len (o.bit r1.k 1 tell1).2 r1.tick
+
 /-- Redundancy signalling (:471-499).  Consumes up to three oracle calls. -/
 def parseRedundancy (o : Oracle) (mode len tell : Int) (r : Run) : Red × Run :=
   if tell + 17 + (if mode = MODE_HYBRID then 20 else 0) ≤ 8 * len then
-    let (redundancy, tell1, r1) :=
-      if mode = MODE_HYBRID then
-        let (b, t) := o.bit r.k 12 tell
-        (b, t, r.tick)
-      else (1, tell, r)
-    if redundancy ≠ 0 then
-      let (c2s, tell2) := o.bit r1.k 1 tell1
-      let r2 := r1.tick
-      let (bytes, tell3, r3) :=
-        if mode = MODE_HYBRID then
-          let (u, t) := o.uint r2.k 256 tell2
-          (u + 2, t, r2.tick)
-        else (len - (tell2 + 7) / 8, tell2, r2)
-      let len' := len - bytes
-      if len' * 8 < tell3 then
-        ({ redundancy := 0, celt_to_silk := c2s, bytes := 0, len := 0, tell := tell3 }, r3)
-      else
-        ({ redundancy := redundancy, celt_to_silk := c2s, bytes := bytes, len := len', tell := tell3 }, r3)
-    else ({ redundancy := 0, celt_to_silk := 0, bytes := 0, len := len, tell := tell1 }, r1)
+    if mode = MODE_HYBRID then
+      -- :476  redundancy = ec_dec_bit_logp(&dec, 12)
+      if (o.bit r.k 12 tell).1 ≠ 0 then redTail o mode len (o.bit r.k 12 tell).1 (o.bit r.k 12 tell).2 r.tick
+      else ({ redundancy := 0, celt_to_silk := 0, bytes := 0, len := len, tell := (o.bit r.k 12 tell).2 }, r.tick)
+    else redTail o mode len 1 tell r                                       -- :478  redundancy = 1
   else ({ redundancy := 0, celt_to_silk := 0, bytes := 0, len := len, tell := tell }, r)
 
 /-- One `celt_decode_with_ec(_dred)` call: ask the oracle, log, return its value. -/
@@ -552,75 +553,81 @@ def frameLoop (o : Oracle) (pcm : Ptr) (frame_size pfs : Int) : List Nat → (of
 def setToc (st : DecState) (mode bandwidth pfs ch : Int) : DecState :=
   { st with mode := mode, bandwidth := bandwidth, frame_size := pfs, stream_channels := ch }
 
+/-- :765-774  FEC: conceal everything except the last `packet_frame_size` samples (`gap` of them). -/
+def fecGap (o : Oracle) (pcm : Ptr) (gap : Int) (r : Run) : Res' :=
+  if gap ≠ 0 then
+    match nativePlc o pcm gap r with
+    | (.ret ret, r1) =>
+      if ret < 0 then (.ret ret, r1.setSt { r1.st with last_packet_duration := r.st.last_packet_duration })  -- :768-772
+      else if ret ≠ gap then (.abort, r1)                                  -- celt_assert :773
+      else (.ret 0, r1)
+    | x => x
+  else (.ret 0, r)
+
+/-- :756-790  the `decode_fec` branch once the packet has been parsed.  `off0`/`sz0` = offset and
+    size of the first frame. -/
+def nativeFec (o : Oracle) (pcm : Ptr) (frame_size pfs packet_mode packet_bandwidth packet_ch off0 sz0 : Int)
+    (r : Run) : Res' :=
+  if frame_size < pfs ∨ packet_mode = MODE_CELT ∨ r.st.mode = MODE_CELT then
+    nativePlc o pcm frame_size r                                           -- :761-762
+  else
+    match fecGap o pcm (frame_size - pfs) r with
+    | (.ret v, r1) =>
+      if v < 0 then (.ret v, r1)
+      else
+        match decodeFrame o (some off0) sz0 (pcm.add (r.st.channels * (frame_size - pfs))) pfs 1
+                (r1.setSt (setToc r1.st packet_mode packet_bandwidth pfs packet_ch)) with    -- :776-781
+        | (.ret ret, r3) =>
+          if ret < 0 then (.ret ret, r3)
+          else (.ret frame_size, r3.setSt { r3.st with last_packet_duration := frame_size })  -- :787-788
+        | x => x
+    | x => x
+
+/-- :796-821  regular decoding of all frames of a parsed packet that fits. -/
+def nativeFrames (o : Oracle) (pcm : Ptr) (frame_size pfs packet_mode packet_bandwidth packet_ch : Int)
+    (sizes : List Nat) (off0 : Int) (soft_clip : Bool) (r : Run) : Res' :=
+  match frameLoop o pcm frame_size pfs sizes off0 0 (r.setSt (setToc r.st packet_mode packet_bandwidth pfs packet_ch)) with
+  | (.ret nb, r2) =>
+    if nb < 0 then (.ret nb, r2)
+    else if soft_clip then
+      (.ret nb, (r2.setSt { r2.st with last_packet_duration := nb }).push (.clip pcm nb r.st.channels))
+    else (.ret nb, r2.setSt { r2.st with last_packet_duration := nb })
+  | x => x
+
 /-- What `opus_decode_native` hands back: return value and `*packet_offset`. -/
 structure NativeOut where
   ret : Out Int
   packetOffset : Int
   run : Run
 
+def NativeOut.mk' (x : Res') (po : Int) : NativeOut := { ret := x.1, packetOffset := po, run := x.2 }
+
 /-- `opus_decode_native` (:681-822).  `data = none` is a NULL pointer; otherwise the first `len`
     bytes of `data` are the packet (`len ≤ data.length` is the caller's obligation). -/
 def decodeNative (o : Oracle) (data : Option Bytes) (len : Int) (pcm : Ptr) (frame_size fec : Int)
     (sd : Bool) (soft_clip : Bool) (r : Run) : NativeOut :=
-  let mk (x : Res') (po : Int) : NativeOut := { ret := x.1, packetOffset := po, run := x.2 }
-  let st := r.st
-  if ¬ validateOk st then mk (.abort, r) 0
-  else if fec < 0 ∨ fec > 1 then mk (.ret BAD_ARG, r) 0
-  else if (fec ≠ 0 ∨ len = 0 ∨ data.isNone) ∧ cmod frame_size (st.Fs / 400) ≠ 0 then mk (.ret BAD_ARG, r) 0
-  else if len = 0 ∨ data.isNone then mk (nativePlcLoop o frame_size pcm 0 r) 0
-  else if len < 0 then mk (.ret BAD_ARG, r) 0
+  if ¬ validateOk r.st then .mk' (.abort, r) 0
+  else if fec < 0 ∨ fec > 1 then .mk' (.ret BAD_ARG, r) 0
+  else if (fec ≠ 0 ∨ len = 0 ∨ data.isNone) ∧ cmod frame_size (r.st.Fs / 400) ≠ 0 then .mk' (.ret BAD_ARG, r) 0
+  else if len = 0 ∨ data.isNone then .mk' (nativePlcLoop o frame_size pcm 0 r) 0
+  else if len < 0 then .mk' (.ret BAD_ARG, r) 0
   else
-    let bs := (data.getD []).take len.toNat
-    let toc := bs.headD 0
-    let packet_mode : Int := getMode toc
-    let packet_bandwidth : Int := getBandwidth toc
-    let pfs : Int := samplesPerFrame toc st.Fs.toNat
-    let packet_ch : Int := getNbChannels toc
-    match parseImpl sd bs with
-    | .err e => mk (.ret e.code, r) 0
-    | .oob => mk (.abort, r) 0        -- unreachable for len ≤ data.length (C06); never produced by the harness
-    | .abort => mk (.abort, r) 0
+    match parseImpl sd ((data.getD []).take len.toNat) with
+    | .err e => .mk' (.ret e.code, r) 0
+    | .oob => .mk' (.abort, r) 0        -- unreachable for len ≤ data.length (C06); never produced by the harness
+    | .abort => .mk' (.abort, r) 0
     | .ok p =>
-      let po : Int := p.packetOffset
-      let count : Int := p.count
-      let off0 : Int := p.payloadOffset
+      -- :744-747 (all four read data[0], the TOC byte)
       if fec ≠ 0 then
-        -- :756-790
-        if frame_size < pfs ∨ packet_mode = MODE_CELT ∨ st.mode = MODE_CELT then
-          mk (nativePlc o pcm frame_size r) po
-        else
-          let dup := st.last_packet_duration
-          let step1 : Res' :=
-            if frame_size - pfs ≠ 0 then
-              match nativePlc o pcm (frame_size - pfs) r with
-              | (.ret ret, r1) =>
-                if ret < 0 then (.ret ret, r1.setSt { r1.st with last_packet_duration := dup })
-                else if ret ≠ frame_size - pfs then (.abort, r1)            -- celt_assert :773
-                else (.ret 0, r1)
-              | x => x
-            else (.ret 0, r)
-          match step1 with
-          | (.ret v, r1) =>
-            if v < 0 then mk (.ret v, r1) po
-            else
-              let r2 := r1.setSt (setToc r1.st packet_mode packet_bandwidth pfs packet_ch)
-              match decodeFrame o (some off0) (p.sizes.headD 0) (pcm.add (st.channels * (frame_size - pfs))) pfs 1 r2 with
-              | (.ret ret, r3) =>
-                if ret < 0 then mk (.ret ret, r3) po
-                else mk (.ret frame_size, r3.setSt { r3.st with last_packet_duration := frame_size }) po
-              | x => mk x po
-          | x => mk x po
-      else if count * pfs > frame_size then mk (.ret BUFFER_TOO_SMALL, r) po
+        .mk' (nativeFec o pcm frame_size (samplesPerFrame (((data.getD []).take len.toNat).headD 0) r.st.Fs.toNat)
+                (getMode (((data.getD []).take len.toNat).headD 0)) (getBandwidth (((data.getD []).take len.toNat).headD 0))
+                (getNbChannels (((data.getD []).take len.toNat).headD 0)) p.payloadOffset (p.sizes.headD 0) r) p.packetOffset
+      else if (p.count : Int) * (samplesPerFrame (((data.getD []).take len.toNat).headD 0) r.st.Fs.toNat : Int) > frame_size then
+        .mk' (.ret BUFFER_TOO_SMALL, r) p.packetOffset                     -- :792-793
       else
-        let r1 := r.setSt (setToc st packet_mode packet_bandwidth pfs packet_ch)
-        match frameLoop o pcm frame_size pfs p.sizes off0 0 r1 with
-        | (.ret nb, r2) =>
-          if nb < 0 then mk (.ret nb, r2) po
-          else
-            let r3 := r2.setSt { r2.st with last_packet_duration := nb }
-            let r4 := if soft_clip then r3.push (.clip pcm nb st.channels) else r3
-            mk (.ret nb, r4) po
-        | x => mk x po
+        .mk' (nativeFrames o pcm frame_size (samplesPerFrame (((data.getD []).take len.toNat).headD 0) r.st.Fs.toNat)
+                (getMode (((data.getD []).take len.toNat).headD 0)) (getBandwidth (((data.getD []).take len.toNat).headD 0))
+                (getNbChannels (((data.getD []).take len.toNat).headD 0)) p.sizes p.payloadOffset soft_clip r) p.packetOffset
 
 /-! ### the three format wrappers (:839-967, float build: opus_res = float) -/
 
